@@ -2,6 +2,7 @@ import EAO.Model.OrderBook
 import EAO.Model.Readout
 import EAO.Model.Assemble
 import EAO.Lemmas.OrderBook
+import EAO.Properties.C02
 /-!
 # C20 — order book: partial or full execution, delivered over the order's window
 
@@ -217,17 +218,227 @@ theorem order_outside_inert (name node : String) (orders : List Order) (fe : Boo
     have := hrow m (List.mem_filter.mp hm).1
     simp [MapRow.contrib, this]
 
-/- TARGET `order_refines` (DESIGN §6 C20, §4.8): "the portfolio with the order book and the portfolio with the
-   per-order textbook formulation have the same attainable (value, flow) pairs".  The asset-local half is
-   proved above, for every assignment `x`:
-     * feasible blocks  = fractions in `[0,1]` (`order_feasible`), 0/1 exactly on the live orders under full
-       execution (`order_rows`);
-     * flows of a block = `Σ_{o covers t} x_o·capa_o·dt_t` at the book's node and grid steps (`order_delivery`),
-       0 elsewhere (`order_delivery_elsewhere`);
-     * cash of a block  = `-Σ_o x_o·capa_o·price_o·Σ_{t∈cover o} dt_t·df_t` (`order_cash`),
-   i.e. `Attain (orderBookProblem …)` IS the per-order specification.  What is missing for the portfolio-level
-   statement is only the composition theorem `portfolio_by_attain` of §4.8 (owned by C02), to which
-   `orderbook_wf` supplies the well-formedness premise. -/
+
+/-! ## order_refines: the order book against its textbook formulation
+
+The reference, written over physical quantities like `EAO/Spec/Textbook.lean` (MEANT TO BE READ): every order
+`o` (number `k`) is executed at a fraction `fr k ∈ [0,1]` — in `{0,1}` under full execution; it covers the
+window positions whose start lies in `[o.start, o.stop)`; at portfolio step `t` the book delivers, at its node,
+`Σ_o Σ_{i covered by o, step of i = t} fr_o · capa_o · dt_i` and nothing anywhere else; it pays
+`Σ_o fr_o · capa_o · price_o · Σ_{i covered by o} dt_i · df_i`. -/
+
+/-- window positions covered by the order -/
+def covered (g : Grid) (o : Order) : List Nat :=
+  (List.range g.T).filter fun i => decide (o.start ≤ g.pts.getD i 0) && decide (g.pts.getD i 0 < o.stop)
+
+/-- volume delivered at portfolio step `t` -/
+def delivered (g : Grid) (orders : List Order) (fr : Nat → Rat) (t : Nat) : Rat :=
+  (orders.zipIdx.map fun p =>
+    (((covered g p.1).filter fun i => Textbook.stepOf g i == t).map fun i => fr p.2 * p.1.capa * Textbook.dtOf g i).sum).sum
+
+/-- discounted payment for the executed fractions -/
+def paid (g : Grid) (orders : List Order) (fr : Nat → Rat) : Rat :=
+  (orders.zipIdx.map fun p =>
+    fr p.2 * p.1.capa * p.1.price * ((covered g p.1).map fun i => Textbook.dtOf g i * Textbook.dfOf g i).sum).sum
+
+/-- all the portfolio sees of the textbook order book: its attainable (flows, cash) pairs -/
+def orderBookSem (node : String) (orders : List Order) (g : Grid) (full : Bool) : Textbook.AssetSem :=
+  ⟨fun fl c => ∃ fr : Nat → Rat,
+      (∀ k, k < orders.length → 0 ≤ fr k ∧ fr k ≤ 1) ∧
+      (full = true → ∀ k, k < orders.length → fr k = 0 ∨ fr k = 1) ∧
+      (∀ n t, fl n t = if n = node then delivered g orders fr t else 0) ∧
+      c = - paid g orders fr⟩
+
+theorem covered_eq (g : Grid) (o : Order) : covered g o = coverPos g o := rfl
+
+/-- flow of the model's order-book problem into any node at any step, for any assignment -/
+theorem order_flow (name node : String) (orders : List Order) (fe : Bool) (g : Grid) (n : String) (t : Nat) (y : Vec) :
+    C09.flow (orderBookProblem name node orders fe g) n t y = if n = node then delivered g orders y t else 0 := by
+  unfold C09.flow
+  by_cases hn : n = node
+  · subst hn
+    simp only [if_true, orderBookProblem]
+    exact flow_orderMapFrom_node name n fe g y t orders 0
+  · simp only [hn, if_false, orderBookProblem]
+    rw [flow_orderMapFrom_other name node fe g n hn t orders 0]
+    rfl
+
+/-- minus the cost of the model's order-book problem is minus the textbook payment -/
+theorem order_cost (name node : String) (orders : List Order) (fe : Bool) (g : Grid) (y : Vec) :
+    - costAt (orderBookProblem name node orders fe g).c 0 y = - paid g orders y := by
+  simp only [orderBookProblem, paid]
+  rw [costAt_map_zipIdx]
+  congr 1
+  apply sum_map_congr'
+  intro p _
+  simp only [orderCost, coverWeight, covered_eq, Textbook.dtOf, Textbook.dfOf]
+  grind
+
+/-- **order_refines** (partial execution / relaxation): the order book's asset problem and the textbook order
+    book have the SAME attainable (flows, cash) pairs, with `fraction = x`; no hypothesis on the grid. -/
+theorem order_refines (name node : String) (orders : List Order) (fe : Bool) (g : Grid) :
+    Textbook.RefinesExactly (orderBookProblem name node orders fe g) (orderBookSem node orders g false) := by
+  intro fl c
+  constructor
+  · rintro ⟨fr, hb, _, hfl, rfl⟩
+    refine ⟨fr, (order_feasible name node orders fe g fr).mpr hb, ?_, order_cost name node orders fe g fr |>.symm⟩
+    intro n t
+    rw [hfl n t]
+    exact (order_flow name node orders fe g n t fr).symm
+  · rintro ⟨y, hy, hfl, rfl⟩
+    refine ⟨y, (order_feasible name node orders fe g y).mp hy, (fun h => by cases h), ?_, order_cost name node orders fe g y⟩
+    intro n t
+    rw [hfl n t]
+    exact order_flow name node orders fe g n t y
+
+/-- **order_refines_full** (full execution): the pairs attainable by the asset problem with its boolean
+    variables forced to 0/1 (`boolVarsOf` = what `OptimProblem.optimize` declares boolean: the orders with a
+    step in the horizon) are exactly the pairs of the textbook order book with EVERY fraction in `{0,1}` —
+    the fractions of orders outside the horizon, which the code leaves continuous, change neither flows nor
+    cash. -/
+theorem order_refines_full (name node : String) (orders : List Order) (g : Grid) (fl : Textbook.Flows) (c : Rat) :
+    (orderBookSem node orders g true).Attain fl c ↔
+      ∃ y, (orderBookProblem name node orders true g).FeasibleRelaxed y ∧
+        (∀ j ∈ boolVarsOf (orderBookProblem name node orders true g).mapping, y j = 0 ∨ y j = 1) ∧
+        (∀ n t, fl n t = C09.flow (orderBookProblem name node orders true g) n t y) ∧
+        c = - costAt (orderBookProblem name node orders true g).c 0 y := by
+  have hbv := (order_rows name node orders true g).2.2.2.2.2.2
+  constructor
+  · rintro ⟨fr, hb, hfull, hfl, rfl⟩
+    refine ⟨fr, (order_feasible name node orders true g fr).mpr hb, ?_, ?_, (order_cost name node orders true g fr).symm⟩
+    · intro j hj
+      obtain ⟨_, o, ho, _⟩ := (hbv j).mp hj
+      have hjl : j < orders.length := by
+        rcases Nat.lt_or_ge j orders.length with h | h
+        · exact h
+        · rw [List.getElem?_eq_none h] at ho; cases ho
+      exact hfull rfl j hjl
+    · intro n t
+      rw [hfl n t]
+      exact (order_flow name node orders true g n t fr).symm
+  · rintro ⟨y, hy, hbool, hfl, rfl⟩
+    have hb := (order_feasible name node orders true g y).mp hy
+    let M := (orderBookProblem name node orders true g).mapping
+    let fr : Nat → Rat := fun k => if k ∈ boolVarsOf M then y k else 0
+    -- on orders with a covered step the two assignments agree
+    have hagree : ∀ p ∈ orders.zipIdx, covered g p.1 ≠ [] → fr p.2 = y p.2 := by
+      intro p hp hc
+      have ho : orders[p.2]? = some p.1 := List.mem_zipIdx_iff_getElem?.mp hp
+      have : p.2 ∈ boolVarsOf M := (hbv p.2).mpr ⟨rfl, p.1, ho, hc⟩
+      simp [fr, this]
+    refine ⟨fr, ?_, ?_, ?_, ?_⟩
+    · intro k hk
+      by_cases h : k ∈ boolVarsOf M
+      · simpa [fr, h] using hb k hk
+      · simp only [fr, h, if_false]
+        exact ⟨Rat.le_refl, by decide⟩
+    · intro _ k _
+      by_cases h : k ∈ boolVarsOf M
+      · simpa [fr, h] using hbool k h
+      · left; simp [fr, h]
+    · intro n t
+      rw [hfl n t, order_flow]
+      by_cases hn : n = node
+      · simp only [hn, if_true, delivered]
+        apply sum_map_congr'
+        intro p hp
+        cases hc : covered g p.1 with
+        | nil => rfl
+        | cons i rest =>
+          rw [← hc, hagree p hp (by rw [hc]; exact List.cons_ne_nil _ _)]
+      · simp [hn]
+    · rw [order_cost]
+      congr 1
+      simp only [paid]
+      apply sum_map_congr'
+      intro p hp
+      cases hc : covered g p.1 with
+      | nil => simp [Rat.mul_zero]
+      | cons i rest =>
+        rw [← hc, hagree p hp (by rw [hc]; exact List.cons_ne_nil _ _)]
+
+/-- the order book satisfies the premises of the composition theorems (`EAO.C09.WF`, `EAO.C09.Local`) -/
+theorem orderbook_composable (name node : String) (orders : List Order) (fe : Bool) (g : Grid) (gridI : List Nat)
+    (hlen : g.idx.length = g.T) (hsteps : ∀ t ∈ g.idx, t ∈ gridI) :
+    C09.WF gridI (orderBookProblem name node orders fe g) ∧ C09.Local (orderBookProblem name node orders fe g) := by
+  have hmap : ∀ m ∈ (orderBookProblem name node orders fe g).mapping,
+      m.node = some node ∧ m.var < orders.length ∧ m.step ∈ g.idx := by
+    intro m hm
+    obtain ⟨j, o, i, hj, hi, rfl⟩ := mem_orderMapFrom name node fe g orders 0 m hm
+    have hiT := (mem_coverPos g o i hi).1
+    have hjl : j < orders.length := by
+      rcases Nat.lt_or_ge j orders.length with h | h
+      · exact h
+      · rw [List.getElem?_eq_none h] at hj; cases hj
+    refine ⟨rfl, by simpa [orderRow] using hjl, ?_⟩
+    simp only [orderRow]
+    rw [List.getD_eq_getElem?_getD, List.getElem?_eq_getElem (by omega)]
+    exact List.getElem_mem _
+  have hn : (orderBookProblem name node orders fe g).n = orders.length := by simp [orderBookProblem, AssetProblem.n]
+  refine ⟨⟨by simp [orderBookProblem, AssetProblem.n], by simp [orderBookProblem, AssetProblem.n], ?_⟩, ⟨?_, ?_⟩⟩
+  · intro m hm n _ hnode
+    obtain ⟨h1, _, h3⟩ := hmap m hm
+    rw [h1] at hnode
+    cases hnode
+    exact ⟨by simp [orderBookProblem], hsteps _ h3⟩
+  · intro r hr; cases hr
+  · intro m hm _
+    rw [hn]; exact (hmap m hm).2.1
+
+/-- **order_refines_portfolio**: a portfolio containing the order book at any position, whose other assets
+    `p.1` are well-formed, local and refine their textbook semantics `p.2`, has — relaxed, i.e. for partial
+    execution — (1) every feasible point matched by a textbook-portfolio point with the same flows of every
+    asset and no less value, (2) conversely, (3) the SAME upper bounds of its value set as the textbook
+    portfolio in which the order book is replaced by the per-order formulation. -/
+theorem order_refines_portfolio (name node : String) (orders : List Order) (fe : Bool) (g : Grid)
+    (pre suf : List (AssetProblem × Textbook.AssetSem)) (gridI : List Nat) (skip : List String)
+    (hlen : g.idx.length = g.T) (hsteps : ∀ t ∈ g.idx, t ∈ gridI)
+    (hothers : ∀ p ∈ pre ++ suf, C09.WF gridI p.1 ∧ C09.Local p.1 ∧ Textbook.Refines p.1 p.2) :
+    let L := pre ++ (orderBookProblem name node orders fe g, orderBookSem node orders g false) :: suf
+    let as := L.map (·.1)
+    let sems := L.map (·.2)
+    (∀ x, (assemble as gridI skip).FeasibleRelaxed x →
+      ∃ V, (assemble as gridI skip).value x ≤ V ∧
+        Textbook.portfolioAttain sems skip (fun i n t => C09.flow (as.getD i default) n t (C09.block as i x)) V) ∧
+    (∀ fl V, Textbook.portfolioAttain sems skip fl V →
+      ∃ x, (assemble as gridI skip).FeasibleRelaxed x ∧ V ≤ (assemble as gridI skip).value x ∧
+        ∀ i, i < as.length → ∀ n t, C09.flow (as.getD i default) n t (C09.block as i x) = fl i n t) ∧
+    (∀ B, (∀ x, (assemble as gridI skip).FeasibleRelaxed x → (assemble as gridI skip).value x ≤ B) ↔
+          (∀ fl V, Textbook.portfolioAttain sems skip fl V → V ≤ B)) := by
+  intro L as sems
+  have hcomp := orderbook_composable name node orders fe g gridI hlen hsteps
+  have hall : ∀ p ∈ L, C09.WF gridI p.1 ∧ C09.Local p.1 ∧ Textbook.Refines p.1 p.2 := by
+    intro p hp
+    rcases List.mem_append.mp hp with h | h
+    · exact hothers p (List.mem_append_left _ h)
+    · rcases List.mem_cons.mp h with h | h
+      · subst h
+        exact ⟨hcomp.1, hcomp.2, (order_refines name node orders fe g).refines⟩
+      · exact hothers p (List.mem_append_right _ h)
+  have hwf : ∀ a ∈ as, C09.WF gridI a := by
+    intro a ha
+    obtain ⟨p, hp, rfl⟩ := List.mem_map.mp ha
+    exact (hall p hp).1
+  have hloc : ∀ a ∈ as, C09.Local a := by
+    intro a ha
+    obtain ⟨p, hp, rfl⟩ := List.mem_map.mp ha
+    exact (hall p hp).2.1
+  have hl : sems.length = as.length := by simp [as, sems]
+  refine C02.portfolio_refines as sems hl gridI skip hwf hloc ?_
+  intro i hi
+  have hiL : i < L.length := by simpa [as] using hi
+  have h1 : as[i] = (L[i]).1 := by simp [as]
+  have h2 : sems[i]'(by omega) = (L[i]).2 := by simp [sems]
+  rw [h1, h2]
+  exact (hall L[i] (List.getElem_mem _)).2.2
+
+/- TARGET `order_refines_portfolio_full` (full execution at portfolio level, with `Problem.Feasible`): the same
+   three statements with `(assemble as gridI skip).Feasible` and `orderBookSem node orders g true`.  The
+   asset-local half is `order_refines_full` (exact, booleans included) and `order_bools_portfolio` (portfolio
+   consisting of the book alone).  Missing: a composition lemma for the boolean flags — `(assemble as …).boolVars`
+   is the union of the assets' `boolVarsOf` shifted by their offsets (needs `m.var < a.n` for ALL mapping rows,
+   not only dispatch rows as in `EAO.C09.Local`) — and a boolean variant of `EAO.C02.portfolio_refines`
+   (`Refines` speaks about `FeasibleRelaxed` only). -/
 
 /-- the well-formedness the accounting theorems (C04) ask of an asset problem, restated locally:
     mapping rows carry the asset's name, point at one of its variables and at a step `< T`; a variable
@@ -301,5 +512,16 @@ example : dcfTotal (orderBookProblem "ob" "n" exOrders true exGrid).c
 example : ∀ i, i < exGrid.T → ¬ ((-5 : Int) ≤ exGrid.pts.getD i 0 ∧ exGrid.pts.getD i 0 < 0) := by decide
 example : (orderRows (orderBookProblem "ob" "n" exOrders true exGrid).c
     (orderBookProblem "ob" "n" exOrders true exGrid).mapping "ob" exX).map (·.name) = ["0", "1"] := by decide +kernel
+
+-- the textbook order book on the same data: delivery at step 1, payment, an attainable pair under full execution
+def exFr : Vec := fun k => if k = 0 then 1 else 0
+example : delivered exGrid exOrders exX 1 = -1/2 := by decide +kernel
+example : paid exGrid exOrders exX = 1 := by decide +kernel
+example : (orderBookSem "n" exOrders exGrid true).Attain
+    (fun n t => if n = "n" then delivered exGrid exOrders exFr t else 0) (- paid exGrid exOrders exFr) :=
+  ⟨exFr, by decide +kernel, fun _ => by decide +kernel, fun _ _ => rfl, rfl⟩
+-- the premises of `order_refines_portfolio` are satisfiable (here: the book alone on the grid 0,1,2)
+example := order_refines_portfolio "ob" "n" exOrders false exGrid [] [] [0, 1, 2] [] (by decide) (by decide)
+  (by intro p hp; cases hp)
 
 end EAO.C20
